@@ -323,8 +323,12 @@ pub fn gen_program(r: &mut Rng, id: u64, thorough: bool) -> Program {
     };
     let base = *r.pick(&[512usize, 512, 512, 1024, 1024, 4096]);
     let big = vt == VType::Bytes && r.chance(1, 3);
-    let shape = *r.pick(&["random", "random", "ascending-load", "descending-load", "load-then-delete", "load-then-pop", "large-values"]);
+    let shape = *r.pick(&["random", "random", "ascending-load", "descending-load", "load-then-delete", "load-then-pop", "large-values",
+                          "extract-sweep", "range-sweep"]);
+    // the sweeps need trees of height >= 2 / 3 at small pages: bounds and consumption counts are then drawn around the leaf edges
+    let base = if shape.ends_with("-sweep") { 512 } else { base };
     let pool_n = match (vt, shape) {
+        (_, "extract-sweep") | (_, "range-sweep") => 60 + r.below(if thorough { 400 } else { 180 }) as usize,
         (VType::U64, _) => 40 + r.below(if thorough { 600 } else { 260 }) as usize,
         (_, "random") => 6 + r.below(50) as usize,
         _ => 20 + r.below(if thorough { 300 } else { 120 }) as usize,
@@ -336,6 +340,10 @@ pub fn gen_program(r: &mut Rng, id: u64, thorough: bool) -> Program {
     // optional directed prefix
     let mut pre: Vec<Op> = vec![];
     match shape {
+        "extract-sweep" | "range-sweep" => {
+            if r.chance(1, 2) { for k in &sp { pre.push(Op::Insert(k.clone(), val(r))); } }
+            else { for k in &shuffled(r, &pool) { pre.push(Op::Insert(k.clone(), val(r))); } }
+        }
         "ascending-load" => { for k in &sp { pre.push(Op::Insert(k.clone(), val(r))); } }
         "descending-load" => { for k in sp.iter().rev() { pre.push(Op::Insert(k.clone(), val(r))); } }
         "load-then-delete" | "load-then-pop" | "large-values" => {
@@ -375,6 +383,47 @@ pub fn gen_program(r: &mut Rng, id: u64, thorough: bool) -> Program {
             let mut ops = c.to_vec();
             ops.push(Op::Range(BoundS::U, BoundS::U, "d".into()));
             txns.push(Txn { ops, end: if r.chance(1, 8) { End::Abort } else { End::Commit }, reopen: r.chance(1, 6) });
+        }
+    }
+    // structured sweeps over a committed tree: every transaction tries one bound pair / consumption pattern and is
+    // aborted, so that all of them see the same tree.  Bounds are PRESENT keys (Included / Excluded / Unbounded), the
+    // consumption is forward, backward, alternating, or k steps from one end followed by a drain from the other end
+    // (k swept over 1.., so that one end is parked exactly at a leaf edge for some k).
+    if shape == "extract-sweep" || shape == "range-sweep" {
+        let pick_bound = |r: &mut Rng, lo_side: bool| -> BoundS {
+            // mostly near the ends so that windows are long; sometimes anywhere
+            let n = sp.len();
+            let i = if r.chance(2, 3) { if lo_side { r.below((n / 4).max(1) as u64) as usize } else { n - 1 - r.below((n / 4).max(1) as u64) as usize } }
+                    else { r.below(n as u64) as usize };
+            match r.below(5) { 0 => BoundS::U, 1 | 2 => BoundS::I(sp[i].clone()), _ => BoundS::E(sp[i].clone()) }
+        };
+        let nsweeps = if thorough { 60 } else { 28 };
+        let kmax = 3 + r.below(40) as usize;
+        let from_front = r.chance(1, 2);
+        let (lo, hi) = (pick_bound(r, true), pick_bound(r, false));
+        for j in 0..nsweeps {
+            let k = 1 + (j % kmax);
+            let (lo, hi) = if j % 4 == 3 { (pick_bound(r, true), pick_bound(r, false)) } else { (lo.clone(), hi.clone()) };
+            let script: String = match j % 7 {
+                5 => "fb".repeat(k) + if r.chance(1, 2) { "d" } else { "D" },
+                6 => if r.chance(1, 2) { "d".into() } else { "D".into() },
+                _ => if from_front ^ (j % 3 == 2) { "f".repeat(k) + "D" } else { "b".repeat(k) + "d" },
+            };
+            let mut ops: Vec<Op> = vec![];
+            if shape == "extract-sweep" {
+                // m = r: every entry of the window matches; otherwise most do
+                let m = *r.pick(&[2u64, 3, 5]);
+                let rr = if r.chance(2, 3) { m } else { r.below(m + 1) };
+                let full = matches!((&lo, &hi), (BoundS::U, BoundS::U));
+                ops.push(Op::Extract(lo.clone(), hi.clone(), m, rr, script + if r.chance(1, 2) { "c" } else { "x" }, full));
+                if r.chance(1, 3) { let m = *r.pick(&[2u64, 3]); ops.push(Op::RetainIn(pick_bound(r, true), pick_bound(r, false), m, r.below(m + 1))); }
+            } else {
+                ops.push(Op::Range(lo.clone(), hi.clone(), script));
+                ops.push(Op::Range(pick_bound(r, true), pick_bound(r, false), if r.chance(1, 2) { "D".into() } else { "bbbfD".into() }));
+            }
+            ops.push(Op::Len);
+            ops.push(Op::Range(BoundS::U, BoundS::U, if r.chance(1, 2) { "d".into() } else { "D".into() }));
+            txns.push(Txn { ops, end: if r.chance(1, 6) { End::Commit } else { End::Abort }, reopen: false });
         }
     }
     // random transactions
@@ -600,7 +649,8 @@ pub fn gen_shape_program(r: &mut Rng, id: u64, thorough: bool, level: u32) -> Pr
     for _ in 0..ntail {
         let k = r.pick(&pool).clone();
         let op = if level >= 2 {
-            match r.below(100) {
+            let top = if level >= 3 { 100 } else { 85 };
+            match r.below(top) {
                 0..=34 => Op::Insert(k, val(r)),
                 35..=52 => Op::Remove(k),
                 53..=56 => Op::PopFirst,
@@ -611,12 +661,13 @@ pub fn gen_shape_program(r: &mut Rng, id: u64, thorough: bool, level: u32) -> Pr
                     Op::GetMut(k, a, b)
                 }
                 73..=78 => if vt == VType::Bytes { Op::Reserve(k, val(r)) } else { Op::Insert(k, val(r)) },
-                79..=84 => match r.below(5) {
+                79..=84 => match r.below(6) {
                     0 => Op::EntryOrInsert(k, val(r)),
                     1 => Op::EntryModify(k, val(r), val(r)),
                     2 => Op::EntryInsert(k, val(r)),
                     3 => Op::EntryRemove(k),
-                    _ => Op::EntryRemoveEntry(k),
+                    4 => Op::EntryRemoveEntry(k),
+                    _ => Op::EntryGet(k),
                 },
                 85..=89 => { let m = *r.pick(&[2u64, 3, 5, 7]); Op::Retain(m, r.below(m + 1)) }
                 90..=94 => { let m = *r.pick(&[2u64, 3, 5, 7]); Op::RetainIn(gen_bound(r, &pool), gen_bound(r, &pool), m, r.below(m + 1)) }
